@@ -30,7 +30,7 @@ namespace tapkee_internal
 template <class P, class DistanceCallback> class CoverTreeWrapper
 {
   public:
-    CoverTreeWrapper() : base(COVERTREE_BASE), il2(1. / log(base)), internal_k(1)
+    CoverTreeWrapper() : base(COVERTREE_BASE), il2(1. / log(base)), internal_k(1), num_cover_sets(101)
     {
     }
 
@@ -118,6 +118,7 @@ template <class P, class DistanceCallback> class CoverTreeWrapper
     ScalarType base;
     ScalarType il2;
     int internal_k;
+    int num_cover_sets;
 };
 
 template <class P> ScalarType max_set(v_array<ds_node<P>>& v)
@@ -404,12 +405,20 @@ template <class P> void halfsort(v_array<d_node<P>> cover_set)
     }
 }
 
+template <class P> int max_scale_of(const node<P>& top_node)
+{
+    int max_v = top_node.scale;
+    for (int i = 0; i < top_node.num_children; i++)
+        max_v = std::max(max_v, max_scale_of(top_node.children[i]));
+    return max_v;
+}
+
 template <class P, class D>
 v_array<v_array<d_node<P>>> CoverTreeWrapper<P, D>::get_cover_sets(
     v_array<v_array<v_array<d_node<P>>>>& spare_cover_sets)
 {
     v_array<v_array<d_node<P>>> ret = pop(spare_cover_sets);
-    while (size(ret) < 101)
+    while (size(ret) < num_cover_sets)
     {
         v_array<d_node<P>> temp;
         push(ret, temp);
@@ -633,6 +642,8 @@ void CoverTreeWrapper<P, DistanceCallback>::batch_nearest_neighbor(DistanceCallb
     v_array<v_array<v_array<d_node<P>>>> spare_cover_sets;
     v_array<v_array<d_node<P>>> spare_zero_sets;
 
+    // one cover set per scale of the tree: more than 101 when the distances span more than 1.3^100
+    num_cover_sets = std::max(101, max_scale_of(top_node) + 1);
     v_array<v_array<d_node<P>>> cover_sets = get_cover_sets(spare_cover_sets);
     v_array<d_node<P>> zero_set = pop(spare_zero_sets);
 
